@@ -523,4 +523,50 @@ def compilePolicy (ingress egress : Bool) (inTables egTables : List Bool) (specI
 def Policy.WF (p : Policy) : Prop :=
   (∀ r, p.ingressRule = some r → r.table = true) ∧ (∀ r, p.egressRule = some r → r.table = true)
 
+/-! ### 1b. `walkConfiguredIPRanges` (pkg/ipam/floatingip/ipam_crd.go, D22)
+
+Ranges are pairs `(first, last)` of addresses as naturals, both ends included. -/
+
+/-- number of addresses of a range (0 when `last < first`) -/
+def rangeSize (r : Nat × Nat) : Nat := r.2 + 1 - r.1
+
+/-- the addresses of a range in ascending order (what `walkIPRanges` visits for it) -/
+def rangeIPs (r : Nat × Nat) : List Nat := List.range' r.1 (rangeSize r)
+
+/-- `lo, hi := ipr; if lo < first { lo = first }; if hi > last { hi = last }; if lo <= hi { keep }` -/
+def clip (first last : Nat) (r : Nat × Nat) : Option (Nat × Nat) :=
+  let lo := if r.1 < first then first else r.1
+  let hi := if r.2 > last then last else r.2
+  if lo ≤ hi then some (lo, hi) else none
+
+/-- the parts of the configured ranges inside one requested range, sorted by first address (`sort.Slice`) -/
+def insertPart (p : Nat × Nat) : List (Nat × Nat) → List (Nat × Nat)
+  | [] => [p]
+  | q :: t => if p.1 ≤ q.1 then p :: q :: t else q :: insertPart p t
+
+/-- `sort.Slice(parts, first ascending)` as an insertion sort (structural, so that it evaluates in proofs too) -/
+def sortParts (l : List (Nat × Nat)) : List (Nat × Nat) := l.foldr insertPart []
+
+def clippedParts (conf : List (Nat × Nat)) (first last : Nat) : List (Nat × Nat) :=
+  sortParts (conf.filterMap (clip first last))
+
+/-- the addresses `walkConfiguredIPRanges` hands to its callback for ONE requested range (callback never stops) -/
+def walkConfigured (conf : List (Nat × Nat)) (first last : Nat) : List Nat :=
+  (clippedParts conf first last).flatMap rangeIPs
+
+/-- what a request-driven site walks for one requested range: the clipped walk when the regenerated fact says every
+site uses `walkConfiguredIPRanges`, else the raw requested range (the pre-fix shape, D22) -/
+def walkRequestG (clipped : Bool) (conf : List (Nat × Nat)) (first last : Nat) : List Nat :=
+  if clipped then walkConfigured conf first last else rangeIPs (first, last)
+
+def walkRequest (conf : List (Nat × Nat)) (first last : Nat) : List Nat :=
+  walkRequestG Generated.Total.requestWalksAreClipped conf first last
+
+/-- total number of configured addresses -/
+def confSize (conf : List (Nat × Nat)) : Nat := (conf.map rangeSize).sum
+
+/-- the configured ranges do not overlap (fipCheck inside a pool; pools are disjoint by configuration) -/
+def Disjoint (conf : List (Nat × Nat)) : Prop :=
+  conf.Pairwise fun a b => a.2 < b.1 ∨ b.2 < a.1
+
 end Galaxy.Total
